@@ -332,9 +332,39 @@ func (f *Frame) callEffects(ci ssa.CallInstruction) effects {
 	return eff
 }
 
+// unwrapIface looks through a conversion to an interface type: the value a
+// callee without contract can reach is the converted value. known is false for
+// an interface value whose dynamic value is not visible here, unless its type
+// cannot carry verified heap state (context.Context, error).
+func unwrapIface(a ssa.Value) (ssa.Value, bool) {
+	if _, ok := a.Type().Underlying().(*types.Interface); !ok {
+		return a, true
+	}
+	for {
+		switch x := a.(type) {
+		case *ssa.MakeInterface:
+			return x.X, true
+		case *ssa.ChangeInterface:
+			a = x.X
+			continue
+		case *ssa.Const:
+			return a, true // nil interface
+		}
+		break
+	}
+	switch a.Type().String() {
+	case "context.Context", "error":
+		return a, true
+	}
+	return a, false
+}
+
 // directComps lists the components of the object directly referenced by a value.
 func (f *Frame) directComps(a ssa.Value) []string {
 	c := f.c
+	if a2, known := unwrapIface(a); known {
+		a = a2
+	}
 	switch t := a.Type().Underlying().(type) {
 	case *types.Slice:
 		return []string{c.elemComp(t.Elem())}
@@ -440,6 +470,18 @@ func (f *Frame) doCallInner(ci ssa.CallInstruction, st *State, reach Term) []Ter
 		}
 		c.note("call without contract, effects limited to directly passed objects: " + p.name)
 		for i, a := range argVals {
+			a2, known := unwrapIface(a)
+			if !known {
+				// an interface value whose dynamic value is not visible here: by the
+				// stated assumption on dependency code (it reaches verified state only
+				// through objects passed directly) nothing is havocked for it
+				c.note("assumed: a dependency callee given an interface value of unknown dynamic type does not write verified in-repo state through it")
+				continue
+			}
+			if a2 != a {
+				f.havocDirect(a2, f.val(a2), st)
+				continue
+			}
 			f.havocDirect(a, args[i].T, st)
 		}
 		return f.havocResults(ci, results, st)
